@@ -132,7 +132,8 @@ pub fn gen_model(rng: &mut Rng, size: usize, with_range: bool) -> Value {
         let (src, nm) = if nsrc > 0 && rng.chance(5, 6) {
             (rng.below(nsrc) as i64, if nnm > 0 && rng.chance(1, 2) { rng.below(nnm) as i64 } else { -1 })
         } else { (-1, -1) };
-        let (sl, sc) = if src >= 0 {
+        // (the origin 0:0 of a source is a frequent original position: the smallest payload there is)
+        let (sl, sc) = if src >= 0 && rng.chance(1, 6) { (0, 0) } else if src >= 0 {
             (if rng.chance(1, 10) { vlq_class(rng, 5) } else { rng.range(0, 2000) },
              if rng.chance(1, 10) { vlq_class(rng, 6) } else { rng.range(0, 300) })
         } else { (0, 0) };
